@@ -10,6 +10,9 @@
 //	xmd-sweep/<hash>, xof-sweep/<xof>,   EVERY message length 0..400 (thorough 0..1100) x 13 DST lengths x output lengths {48, 64, 96};
 //	memory                               every byte-slice argument as a sub-slice of a guarded arena (all orderings in one buffer,
 //	                                     gap 0/1, spare capacity): result = reference, caller memory unchanged except `out`
+//	overlap, overlap-suite               out / msg / DST sharing memory inside one caller buffer (every layout the RFC data flow permits)
+//	xof-template                         every XOF entry point with fresh / absorbing / squeezing caller-supplied ShakeHash objects
+//	returned-point                       overwriting a returned point changes nothing else (no shared state handed out)
 //	history                              single-goroutine call histories [a; b; a] colliding on DST bytes / message / length across
 //	                                     all ordered pairs of hashes, XOFs and suite functions: every step = reference
 //	suite-sweep/<function>               five suite functions on every message length 0..300 (600) with the ECVRF DST and the RFC's J.5 DST
@@ -127,6 +130,9 @@ func run(c *mc.Ctx) {
 	timed("suite", func() { runSuites(c, byteStrings(c.Seed, "dst", []int{1, 16, 254, 255, 256, 257, 1000})) })
 	timed("sweep", func() { runSweeps(c) })
 	timed("memory", func() { runMemory(c) })
+	timed("overlap", func() { runOverlap(c) })
+	timed("xof-template", func() { runXOFTemplate(c) })
+	timed("returned-point", func() { runReturnedPoints(c) })
 	c.Rep.Extra["wall_s_by_group"] = timing // informational only; no verdict depends on it
 
 	// Which exceptional inputs exist at all is a fact about the curve constants, established on the reference side:
@@ -148,6 +154,8 @@ func run(c *mc.Ctx) {
 		"uniform-nu/reduced(>=p)", "uniform-nu/identity", "uniform-ro/Q0=Q1", "uniform-ro/Q0=-Q1", "uniform-ro/generic",
 		"suite/edwards-ro", "suite/edwards-nu", "suite/ristretto", "suite/refused",
 		"memory/expand", "memory/suite",
+		"overlap/out-msg", "overlap/out-dst", "overlap/out-dst/xmd-ell=1", "overlap/out-dst/xmd-oversize-dst", "overlap/out-msg-dst", "overlap/msg-dst", "overlap/suite/msg-dst",
+		"overlap/excluded(xmd,ell>=2,out-overlaps-short-dst)", "xof-template/fresh", "xof-template/absorbing", "xof-template/squeezing", "returned-point",
 		"history/same-dst-other-function", "history/same-dst-other-function/oversize-dst", "history/same-function-other-dst", "history/same-function-other-length", "history/same-function-other-message",
 	} {
 		c.Require(cl, 1)
